@@ -1194,7 +1194,8 @@ void Parser::maybeAmbiguateCastExpression(ExpressionSyntax*& expr)
             && (prefixExpr->kind() == SyntaxKind::AddressOfExpression
                     || prefixExpr->kind() == SyntaxKind::PointerIndirectionExpression
                     || prefixExpr->kind() == SyntaxKind::UnaryPlusExpression
-                    || prefixExpr->kind() == SyntaxKind::UnaryMinusExpression)))
+                    || prefixExpr->kind() == SyntaxKind::UnaryMinusExpression
+                    || prefixExpr->kind() == SyntaxKind::ExtGNU_LabelAddress)))
         return;
 
     TypeNameSyntax* typeName = castExpr->typeName_;
@@ -1221,6 +1222,11 @@ void Parser::maybeAmbiguateCastExpression(ExpressionSyntax*& expr)
 
         case SyntaxKind::UnaryMinusExpression:
             binExprK = SyntaxKind::SubstractExpression;
+            break;
+
+        // `( x ) && y' is a cast of the address of a label only if x is a type.
+        case SyntaxKind::ExtGNU_LabelAddress:
+            binExprK = SyntaxKind::LogicalANDExpression;
             break;
 
         default:
